@@ -35,6 +35,15 @@ ASSUMPTIONS = [
     "frequency sub-oracle is statistical: |z|>6 then three confirmations at 4N with |z|>4 (DESIGN 2.6)",
 ]
 SHARDS = {"quick": 4, "thorough": 16}
+TECHNIQUE = ("exhaustive boundary-alphabet enumeration + Hypothesis float32 generation against a float32 reference rule; "
+             "harness-owned uniform draw and real PRNG keys incl. zero-draw keys; binomial frequency test")
+LEVEL_TEXT = ("Generated-input search with an explicit float32 oracle of the acceptance rule: every combination of the boundary "
+              "alphabets (finite, +-inf, NaN, under/overflow edges) x six placements of u relative to a is enumerated, random float32 "
+              "triples and a Liesel graph model are added, real PRNG keys whose uniform draw is exactly 0.0 are searched for and "
+              "replayed, RW/MH/IWLS kernel infos are checked on a support-constrained target, and the acceptance frequency over "
+              "thousands of keys is compared with the reported probability. Exploration, not proof: exhaustive only over the stated alphabets.")
+LEVEL_NOTE = ("Trusts numpy float32 arithmetic as the reference; the harness-owned-u assertions apply only when mh_step draws via "
+              "jax.random.uniform (detected), otherwise distribution-free and frequency laws only.")
 
 F32 = np.float32
 EPS = float(np.finfo(np.float32).eps)
